@@ -23,7 +23,7 @@ def gen_case(seed, tier="quick"):
     mom = rng.random() < 0.5
     gn = C.names_of(sys_)
     names = C.spell(rng, sys_, mom) if mom else list(gn)
-    shape = rng.choice(([3], [4], [1], [2, 3], [3, 2], [2, 2, 2], [1, 3], [5]))
+    shape = rng.choice(([3], [4], [1], [2, 3], [3, 2], [2, 2, 2], [1, 3], [5], [], [0], [2, 0]))
     n = 1
     for s in shape:
         n *= s
@@ -34,11 +34,11 @@ def gen_case(seed, tier="quick"):
         if dt == "i8":
             vals = [int(round(v)) or 1 for v in vals]
         cols[g] = vals
-    how = rng.choice(("cols", "rows", "cls", "view", "dtobj")) if len(shape) == 1 else "cols"
+    how = rng.choice(("cols", "rows", "cls", "view", "dtobj")) if (len(shape) == 1 and n > 0) else "cols"
     nsteps = rng.choice((1, 2, 3, 5, 8, 12)) if tier == "quick" else rng.choice((3, 6, 12, 20))
     steps = []
     kinds = ["slice", "slice", "mask", "intidx", "reshape", "transpose", "viewcls", "viewnd", "copy", "deepcopy", "pickle",
-             "write_col", "write_elem", "write_rows", "flavor", "coordview", "asarray", "element", "objarray", "newaxis", "ravel", "int", "int"]
+             "write_col", "write_elem", "write_rows", "flavor", "coordview", "asarray", "element", "objarray", "newaxis", "ravel", "int", "int", "ellipsis", "ellipsis", "copyF", "swapaxes"]
     for _ in range(nsteps):
         k = rng.choice(kinds)
         st = {"s": k, "src": rng.randrange(1 << 16), "r": [rng.randrange(1 << 16) for _ in range(4)]}
@@ -148,7 +148,7 @@ def check_array(vector, L, i, st, viol, case, deep=True):
     if a.size:
         idxs = [tuple(0 for _ in a.shape), tuple(s - 1 for s in a.shape)]
         for idx in idxs:
-            key = idx if len(idx) > 1 else idx[0]
+            key = idx if len(idx) != 1 else idx[0]   # () for a 0-d array
             try:
                 el = a[key]
             except Exception as e:
@@ -247,6 +247,19 @@ def run_case(case, vector):
                 check_array(vector, L, i, st, viol, case)
                 continue
             new = derive(L, lambda x: x[ii], lambda x: x[ii], origin=f"int[{ii}]")
+        elif k == "ellipsis":
+            # x[...] and x[i, ...] are views (0-d ones included): still arrays of the same class
+            if a.ndim >= 1 and a.shape[0] and r[0] % 2:
+                ii = r[1] % a.shape[0]
+                new = derive(L, lambda x: x[ii, ...], lambda x: x[ii, ...], origin=f"[{ii}, ...]")
+            else:
+                new = derive(L, lambda x: x[...], lambda x: x[...], origin="[...]")
+        elif k == "copyF":
+            new = derive(L, lambda x: x.copy(order="F"), lambda x: x.copy(order="F"), origin="copy(order=F)")
+        elif k == "swapaxes":
+            if a.ndim < 2:
+                continue
+            new = derive(L, lambda x: x.swapaxes(0, -1), lambda x: x.swapaxes(0, -1), origin="swapaxes(0,-1)")
         elif k == "mask":
             if a.ndim == 0 or a.shape[0] == 0:
                 continue
@@ -355,7 +368,7 @@ def run_case(case, vector):
                 continue
             idx = tuple(r[q % 4] % s for q, s in enumerate(a.shape))
             try:
-                el = a[idx if len(idx) > 1 else idx[0]]
+                el = a[idx if len(idx) != 1 else idx[0]]
                 arrs = [("__array__", el.__array__()), ("asanyarray", numpy.asanyarray(el))]
                 plain = numpy.asarray(el)
             except Exception as e:
